@@ -376,8 +376,21 @@ theorem step_inv (s : State) (st : Step) (h : CInv s) : CInv (BR.Conc.step s st)
       | looked e => exact h
       | done r => exact h
       | failed e =>
-        exact cinv_setGet_nodata h (removeElemId s.lru e.id) (inv_removeElemId h.lru e.id)
-          (BR.Disk.res_removeElemId s.lru e.id) j _ (by intro c hc; cases hc)
+        have hi : Inv (removeIfSame s.lru e) := by
+          unfold removeIfSame
+          split
+          · split
+            · exact inv_removeElemId h.lru e.id
+            · exact h.lru
+          · exact h.lru
+        have hr : (removeIfSame s.lru e).res = s.lru.res := by
+          unfold removeIfSame
+          split
+          · split
+            · exact BR.Disk.res_removeElemId s.lru e.id
+            · rfl
+          · rfl
+        exact cinv_setGet_nodata h (removeIfSame s.lru e) hi hr j _ (by intro c hc; cases hc)
   | unlink =>
     simp only [BR.Conc.step]
     have hi := inv_drainOne h.lru
@@ -513,6 +526,16 @@ def demo : State := BR.Conc.run (initState 8192 0 [("ac/k", [1, 2, 3]), ("ac/k",
 
 example : (demo.gets.map (fun g => match g.pc with | .done r => r | _ => none)) = [some [4, 5, 6, 7]] := by decide
 example : demo.lru.res = 0 ∧ demo.files.length = 1 := by decide
+
+/-- the schedule of finding F23 (a reader that failed on a corrupted file removes its captured
+element after two uploads replaced the value in place): with the repaired removal the fresh upload
+stays indexed and a later read finds it -/
+def f23 : State := BR.Conc.run (initState 1073741824 0 [("cas/k", [1, 1]), ("cas/k", [1, 1]), ("cas/k", [1, 1])] ["cas/k", "cas/k", "cas/k"])
+  [.putReserve 2, .putWrite 2 false, .putCommit 2, .getLookup 1, .corrupt "cas/k" (rndOf 2),
+   .putReserve 1, .putWrite 1 false, .putCommit 1, .getOpen 1,
+   .putReserve 0, .putWrite 0 false, .putCommit 0, .getRemove 1, .getLookup 2, .getOpen 2]
+
+example : (f23.gets.map (fun g => match g.pc with | .done r => r | _ => none)) = [none, none, some [1, 1]] := by decide
 
 #print axioms conc_accounting
 #print axioms conc_quiescent_accounting
